@@ -21,6 +21,12 @@ pub fn vx_assert_or_diverge(c: bool)
     ensures c,
 { assert!(c) }
 
+// must-not-call / order variants: a call site that must not be reached (before its prerequisite)
+#[verifier::external_body]
+pub fn vx_forbidden()
+    requires false,
+{ }
+
 // canaries of must-panic variants: body replaced by an arbitrary return value; must be rejected.
 #[verifier::external_body]
 pub fn vx_any<T>() -> T { unimplemented!() }
